@@ -44,6 +44,8 @@ def lockOK (v : PQValue α) (isIngr : Bool) : Prop := v.lock.isSome = true → i
 /-- a plain definition: neither `&` (REF) nor `+` (NEW) -/
 def plainMods (m : Modifiers) : Prop := m.contains Modifiers.NEW = false ∧ m.contains Modifiers.REF = false
 
+instance (m : Modifiers) : Decidable (plainMods m) := by unfold plainMods; infer_instance
+
 /-! ### the pieces of the collector on a plain definition -/
 
 theorem rta_valueOf (env : Env) (v : PQValue α) (b : Bool) (s : Col α) (h : lockOK v b) :
